@@ -126,7 +126,7 @@ Lemma claim_fwd : forall a s ign1 nl ign2 c rest first w' (d : doc),
   NoDup (ids d) ->
   first :: w' = ign1 ++ nl :: ign2 ++ c :: rest ->
   forallb is_ph ign1 = true -> forallb is_ph ign2 = true ->
-  exists d2, splice d ([nl; c] ++ ign1 ++ ign2) (t_id first) (t_id c) = Some d2 /\ same_vis d2 d.
+  exists d2, splice d ([nl; c] ++ ign1 ++ ign2) (t_id first) (t_id c) = Some d2 /\ Permutation d2 d /\ same_vis d2 d.
 Proof.
   intros a s ign1 nl ign2 c rest first w' d Hd ND HW P1 P2.
   assert (E : d = (a ++ [s]) ++ (ign1 ++ nl :: ign2 ++ [c]) ++ rest).
@@ -134,12 +134,15 @@ Proof.
   assert (HM : exists m1, ign1 ++ nl :: ign2 ++ [c] = first :: m1).
   { destruct ign1; simpl in *; inversion HW; eexists; reflexivity. }
   destruct HM as [m1 HM].
-  exists ((a ++ [s]) ++ ([nl; c] ++ ign1 ++ ign2) ++ rest). split.
+  assert (PM : Permutation ([nl; c] ++ ign1 ++ ign2) (ign1 ++ nl :: ign2 ++ [c])).
+  { simpl. apply Permutation_cons_app. rewrite app_assoc. apply Permutation_cons_append. }
+  exists ((a ++ [s]) ++ ([nl; c] ++ ign1 ++ ign2) ++ rest). split; [|split].
   - rewrite E, HM. apply splice_range with (m2 := ign1 ++ nl :: ign2).
     + rewrite <- HM, <- E. exact ND.
     + rewrite <- HM. rewrite <- app_assoc. reflexivity.
+  - rewrite E. apply Permutation_app_head, Permutation_app_tail. exact PM.
   - rewrite E. apply same_vis_ctx.
-    + simpl. apply Permutation_cons_app. rewrite app_assoc. apply Permutation_cons_append.
+    + exact PM.
     + rewrite !filter_app. simpl. rewrite !filter_app. simpl.
       rewrite (ph_filter_vis _ P1), (ph_filter_vis _ P2). simpl.
       destruct (vis nl), (vis c); reflexivity.
@@ -151,7 +154,7 @@ Lemma claim_bwd : forall a s b ign1 nl ign2 c rest first w' (d : doc),
   rev a = first :: w' ->
   first :: w' = ign1 ++ nl :: ign2 ++ c :: rest ->
   forallb is_ph ign1 = true -> forallb is_ph ign2 = true ->
-  exists d2, splice d (rev (ign1 ++ ign2) ++ [c; nl]) (t_id c) (t_id first) = Some d2 /\ same_vis d2 d.
+  exists d2, splice d (rev (ign1 ++ ign2) ++ [c; nl]) (t_id c) (t_id first) = Some d2 /\ Permutation d2 d /\ same_vis d2 d.
 Proof.
   intros a s b ign1 nl ign2 c rest first w' d Hd ND HR HW P1 P2.
   assert (Ea : a = rev rest ++ (c :: rev ign2 ++ nl :: rev ign1)).
@@ -164,14 +167,17 @@ Proof.
     - exists (c :: rev ign2). reflexivity.
     - exists (c :: rev ign2 ++ nl :: rev i1). simpl. rewrite <- app_assoc. reflexivity. }
   destruct HM as [m2 HM].
-  exists (rev rest ++ (rev (ign1 ++ ign2) ++ [c; nl]) ++ (s :: b)). split.
+  assert (PM : Permutation (rev (ign1 ++ ign2) ++ [c; nl]) (c :: rev ign2 ++ nl :: rev ign1)).
+  { rewrite rev_app_distr. rewrite <- app_assoc.
+    apply Permutation_sym. rewrite app_assoc. apply Permutation_cons_app.
+    rewrite <- app_assoc. apply Permutation_app_head. apply Permutation_cons_append. }
+  exists (rev rest ++ (rev (ign1 ++ ign2) ++ [c; nl]) ++ (s :: b)). split; [|split].
   - rewrite E. apply splice_range with (m2 := m2).
     + rewrite <- E. exact ND.
     + exact HM.
+  - rewrite E. apply Permutation_app_head, Permutation_app_tail. exact PM.
   - rewrite E. apply same_vis_ctx.
-    + rewrite rev_app_distr. rewrite <- app_assoc.
-      apply Permutation_sym. rewrite app_assoc. apply Permutation_cons_app.
-      rewrite <- app_assoc. apply Permutation_app_head. apply Permutation_cons_append.
+    + exact PM.
     + rewrite rev_app_distr. rewrite !filter_app. simpl. rewrite !filter_app. simpl.
       rewrite (ph_filter_vis_rev _ P1), (ph_filter_vis_rev _ P2). simpl.
       destruct (vis nl), (vis c); reflexivity.
@@ -201,12 +207,12 @@ Proof.
   destruct sb as [|s b]; [discriminate|]. apply split_at_spec in S. destruct S as [Hd _].
   destruct bw.
   - inversion W as [HR]. 
-    destruct (claim_bwd a s b ign1 nl ign2 c rest first w' d Hd ND HR T1 P1 P2) as [d2 [Sp SV]].
+    destruct (claim_bwd a s b ign1 nl ign2 c rest first w' d Hd ND HR T1 P1 P2) as [d2 [Sp [PT SV]]].
     rewrite Sp in H. inversion H; subst d'.
     eapply same_vis_trans; [apply same_vis_set_claimed | exact SV].
   - inversion W; subst b.
     assert (Hd' : d = a ++ s :: ign1 ++ nl :: ign2 ++ c :: rest) by (rewrite Hd, T1; reflexivity).
-    destruct (claim_fwd a s ign1 nl ign2 c rest first w' d Hd' ND T1 P1 P2) as [d2 [Sp SV]].
+    destruct (claim_fwd a s ign1 nl ign2 c rest first w' d Hd' ND T1 P1 P2) as [d2 [Sp [PT SV]]].
     rewrite Sp in H. inversion H; subst d'.
     eapply same_vis_trans; [apply same_vis_set_claimed | exact SV].
 Qed.
@@ -306,4 +312,251 @@ Proof.
   assert (E : forall x, map t_id x = map (fun k => fst (fst k)) (map tkey x)).
   { intros x; rewrite map_map; reflexivity. }
   rewrite E in *. eapply Permutation_NoDup; [apply Permutation_sym, Permutation_map; exact P | exact ND].
+Qed.
+
+(* ---- ownership (C14) ---------------------------------------------------------------------- *)
+Definition OwnInv (d : doc) (tb : table) : Prop :=
+  forall t, In t d -> is_comment t = true ->
+    (owners (t_id t) tb <= 1)%nat /\ (t_claimed t = true <-> owners (t_id t) tb = 1%nat).
+Definition slots_small (tb : table) : Prop :=
+  forall n, (length (tget tb (SLead n)) <= 1)%nat /\ (length (tget tb (STrail n)) <= 1)%nat.
+Definition Inv (st : doc * table) : Prop :=
+  NoDup (ids (fst st)) /\ OwnInv (fst st) (snd st) /\ slots_small (snd st).
+
+Lemma slot_eqb_eq : forall a b, slot_eqb a b = true <-> a = b.
+Proof.
+  destruct a, b; simpl; split; intros H; try discriminate; try (apply Z.eqb_eq in H; subst; auto);
+    try (inversion H; apply Z.eqb_refl).
+Qed.
+
+Lemma owners_tset : forall c tb s l,
+  (owners c (tset tb s l) + count_z c (tget tb s) = owners c tb + count_z c l)%nat.
+Proof.
+  induction tb as [|[s' l'] tb IH]; simpl; intros s l; [lia|].
+  destruct (slot_eqb s' s); simpl; [lia|]. specialize (IH s l). lia.
+Qed.
+
+Lemma tget_tset : forall tb s l s', tget (tset tb s l) s' = if slot_eqb s s' then l else tget tb s'.
+Proof.
+  induction tb as [|[s0 l0] tb IH]; simpl; intros s l s'.
+  - destruct (slot_eqb s s'); auto.
+  - destruct (slot_eqb s0 s) eqn:E; simpl.
+    + apply slot_eqb_eq in E; subst s0. destruct (slot_eqb s s'); auto.
+    + rewrite IH. destruct (slot_eqb s s') eqn:E2; auto.
+      apply slot_eqb_eq in E2; subst s'. rewrite E. auto.
+Qed.
+
+Lemma slots_small_tset : forall tb s l, slots_small tb -> (length l <= 1)%nat -> slots_small (tset tb s l).
+Proof.
+  intros tb s l H L n. rewrite !tget_tset. destruct (H n).
+  destruct (slot_eqb s (SLead n)), (slot_eqb s (STrail n)); auto.
+Qed.
+
+Lemma nodup_id_inj : forall d x y, NoDup (ids d) -> In x d -> In y d -> t_id x = t_id y -> x = y.
+Proof.
+  induction d as [|t d IH]; simpl; intros x y ND Ix Iy E; [contradiction|].
+  inversion ND as [|? ? N1 N2]; subst.
+  destruct Ix as [Ix|Ix], Iy as [Iy|Iy]; subst; auto.
+  - exfalso; apply N1. rewrite E. apply in_map; auto.
+  - exfalso; apply N1. rewrite <- E. apply in_map; auto.
+Qed.
+
+Lemma in_set_claimed : forall c v d t', In t' (set_claimed c v d) ->
+  exists t, In t d /\ t' = (if t_id t =? c then set_flag v t else t).
+Proof.
+  intros c v d t' H. unfold set_claimed in H. apply in_map_iff in H. destruct H as [t [E I]]. exists t; auto.
+Qed.
+
+Lemma set_claimed_ids : forall c v d, ids (set_claimed c v d) = ids d.
+Proof.
+  induction d as [|t d IH]; simpl; auto. unfold ids in *. simpl. rewrite IH. f_equal.
+  destruct (t_id t =? c); reflexivity.
+Qed.
+
+(* what _claim_comment can return when nothing is claimed yet *)
+Lemma claim_comment_cases : forall d start bw ig ind r d',
+  NoDup (ids d) -> claim_comment None d start bw ig ind = (r, d') ->
+  (d' = d /\ (r = Ok None \/ exists e, r = Err e)) \/
+  (exists t d2, r = Ok (Some (t_id t)) /\ In t d /\ is_comment t = true /\ t_claimed t = false /\
+                Permutation d2 d /\ d' = set_claimed (t_id t) true d2 /\
+                match ind with Some b => comment_indented t = b | None => True end).
+Proof.
+  intros d start bw ig ind r d' ND H. unfold claim_comment in H.
+  destruct (walk d start bw) as [w|] eqn:W; [|inversion H; left; split; eauto].
+  destruct w as [|first w']; [inversion H; left; auto|].
+  destruct (take_ignored (first :: w')) as [ign1 r1] eqn:T1.
+  destruct r1 as [|nl r1']; [inversion H; left; auto|].
+  destruct (negb (is_nl nl)); [inversion H; left; auto|].
+  destruct (take_ignored r1') as [ign2 r2] eqn:T2.
+  destruct r2 as [|c rest]; [inversion H; left; auto|].
+  destruct (is_comment c) eqn:IC; simpl in H; [|inversion H; left; auto].
+  destruct (match ind with Some b => negb (Bool.eqb (comment_indented c) b) | None => false end) eqn:IND;
+    [inversion H; left; auto|].
+  destruct (t_claimed c) eqn:CL; [destruct ig; inversion H; left; split; eauto|].
+  assert (INDOK : match ind with Some b => comment_indented c = b | None => True end).
+  { destruct ind as [b0|]; auto. apply negb_false_iff in IND. apply Bool.eqb_prop in IND. exact IND. }
+  apply take_ignored_spec in T1. destruct T1 as [T1 P1].
+  apply take_ignored_spec in T2. destruct T2 as [T2 P2]. subst r1'.
+  unfold walk in W. destruct (split_at start d) as [[a sb]|] eqn:S; [|discriminate].
+  destruct sb as [|s b]; [discriminate|]. apply split_at_spec in S. destruct S as [Hd _].
+  assert (INw : In c (first :: w')).
+  { rewrite T1. apply in_or_app. right. right. apply in_or_app. right. left. reflexivity. }
+  assert (INd : In c d).
+  { rewrite Hd. destruct bw; injection W as HR.
+    - apply in_or_app. left. apply in_rev. rewrite HR. exact INw.
+    - apply in_or_app. right. right. rewrite HR. exact INw. }
+  destruct (ign1 ++ ign2) as [|i0 irest] eqn:EI.
+  - injection H as Hr Hd2; subst r d'. right. exists c, d. repeat split; auto.
+  - rewrite <- EI in H. right. destruct bw.
+    + inversion W as [HR].
+      destruct (claim_bwd a s b ign1 nl ign2 c rest first w' d Hd ND HR T1 P1 P2) as [d2 [Sp [PT SV]]].
+      rewrite Sp in H. injection H as Hr Hd2; subst r d'. exists c, d2. repeat split; auto.
+    + inversion W; subst b.
+      assert (Hd' : d = a ++ s :: ign1 ++ nl :: ign2 ++ c :: rest) by (rewrite Hd, T1; reflexivity).
+      destruct (claim_fwd a s ign1 nl ign2 c rest first w' d Hd' ND T1 P1 P2) as [d2 [Sp [PT SV]]].
+      simpl in Sp. rewrite Sp in H. injection H as Hr Hd2; subst r d'. exists c, d2. repeat split; auto.
+Qed.
+
+Lemma cur_of_nil : forall l, cur_of l = None -> l = [].
+Proof. destruct l; simpl; intros; auto; discriminate. Qed.
+
+Lemma count_z_single : forall c x, count_z c [x] = if x =? c then 1%nat else 0%nat.
+Proof. intros; simpl. destruct (x =? c); auto. Qed.
+
+(* claiming into an empty slot keeps the invariant *)
+Lemma claim_step_inv : forall d tb s start bw ig ind r d',
+  Inv (d, tb) -> (match s with SRep _ => False | _ => True end) ->
+  claim_comment (cur_of (tget tb s)) d start bw ig ind = (r, d') ->
+  Inv (d', match r with Ok x => tset tb s (opt_list x) | Err _ => tb end).
+Proof.
+  intros d tb s start bw ig ind r d' [ND [OI SS]] Hs H. simpl in ND, OI, SS.
+  destruct (cur_of (tget tb s)) as [c0|] eqn:CUR.
+  - (* already has one: returned unchanged *)
+    simpl in H. inversion H; subst. simpl.
+    assert (E : tget tb s = [c0]).
+    { destruct s as [n|n|n]; try contradiction; destruct (SS n) as [L1 L2];
+        destruct (tget tb _) as [|x [|y l]]; simpl in *; try discriminate; try lia; inversion CUR; auto. }
+    unfold Inv; simpl; split; [exact ND|]; split.
+    + intros t I C. pose proof (owners_tset (t_id t) tb s [c0]) as O. rewrite E in O.
+      apply Nat.add_cancel_r in O. rewrite O. exact (OI t I C).
+    + apply slots_small_tset; auto.
+  - apply cur_of_nil in CUR.
+    destruct (claim_comment_cases d start bw ig ind r d' ND H) as [[E R]|[t [d2 [R [I [C [U [P [E _]]]]]]]]].
+    + subst d'. destruct R as [R|[e R]]; subst r; simpl.
+      * unfold Inv; simpl; split; [exact ND|]; split.
+        -- intros t I C. pose proof (owners_tset (t_id t) tb s []) as O. rewrite CUR in O. simpl in O.
+           destruct (OI t I C) as [A B]. split; [lia|]. rewrite B. split; intros; lia.
+        -- apply slots_small_tset; auto.
+      * unfold Inv; simpl; split; [exact ND|]; split; auto.
+    + subst r d'. simpl.
+      assert (ND2 : NoDup (ids d2)).
+      { unfold ids. eapply Permutation_NoDup; [apply Permutation_sym, Permutation_map; exact P | exact ND]. }
+      unfold Inv; simpl; split; [rewrite set_claimed_ids; exact ND2|]; split.
+      * intros t' I' C'. apply in_set_claimed in I'. destruct I' as [t0 [I0 E0]].
+        assert (I0d : In t0 d) by (eapply Permutation_in; eauto).
+        pose proof (owners_tset (t_id t') tb s [t_id t]) as O. rewrite CUR in O. rewrite count_z_single in O.
+        simpl in O.
+        destruct (t_id t0 =? t_id t) eqn:EQ.
+        -- apply Z.eqb_eq in EQ. assert (t0 = t) by (apply (nodup_id_inj d); auto). subst t0. subst t'.
+           simpl in *. rewrite Z.eqb_refl in O.
+           destruct (OI t I C) as [A B]. rewrite U in B.
+           assert (owners (t_id t) tb = 0)%nat.
+           { destruct B as [_ B2]. destruct (Nat.eq_dec (owners (t_id t) tb) 1) as [K|K];
+               [specialize (B2 K); discriminate | lia]. }
+           split; [lia|]. split; intros; auto; lia.
+        -- subst t'. assert (NE : (t_id t =? t_id t0) = false).
+           { rewrite Z.eqb_sym. exact EQ. }
+           rewrite NE in O. destruct (OI t0 I0d C') as [A B]. split; [lia|]. rewrite B. split; intros; lia.
+      * apply slots_small_tset; auto.
+Qed.
+
+Lemma unclaim_step_inv : forall d tb s r now d',
+  Inv (d, tb) -> (match s with SRep _ => False | _ => True end) ->
+  unclaim_comment (cur_of (tget tb s)) d = (r, now, d') ->
+  Inv (d', tset tb s (opt_list now)).
+Proof.
+  intros d tb s r now d' [ND [OI SS]] Hs H. simpl in ND, OI, SS. unfold unclaim_comment in H.
+  destruct (cur_of (tget tb s)) as [c0|] eqn:CUR; inversion H; subst; simpl.
+  - assert (E : tget tb s = [c0]).
+    { destruct s as [n|n|n]; try contradiction; destruct (SS n) as [L1 L2];
+        destruct (tget tb _) as [|x [|y l]]; simpl in *; try discriminate; try lia; inversion CUR; auto. }
+    unfold Inv; simpl; split; [rewrite set_claimed_ids; exact ND|]; split.
+    + intros t' I' C'. apply in_set_claimed in I'. destruct I' as [t0 [I0 E0]].
+      pose proof (owners_tset (t_id t') tb s []) as O. rewrite E in O. rewrite count_z_single in O. simpl in O.
+      destruct (t_id t0 =? c0) eqn:EQ.
+      * subst t'. simpl in *. apply Z.eqb_eq in EQ. subst c0. rewrite Z.eqb_refl in O.
+        destruct (OI t0 I0 C') as [A B]. split; [lia|]. split; intros X; [discriminate | lia].
+      * subst t'. assert (NE : (c0 =? t_id t0) = false) by (rewrite Z.eqb_sym; exact EQ).
+        rewrite NE in O. destruct (OI t0 I0 C') as [A B]. split; [lia|]. rewrite B. split; intros; lia.
+    + apply slots_small_tset; auto.
+  - apply cur_of_nil in CUR. unfold Inv; simpl; split; [exact ND|]; split.
+    + intros t I C. pose proof (owners_tset (t_id t) tb s []) as O. rewrite CUR in O. simpl in O.
+      destruct (OI t I C) as [A B]. split; [lia|]. rewrite B. split; intros; lia.
+    + apply slots_small_tset; auto.
+Qed.
+
+Theorem sstep_inv : forall st o, Inv st -> Inv (sstep st o).
+Proof.
+  intros [d tb] o H. destruct o as [n start ig ind|n start ig ind|n|n]; simpl.
+  - destruct (claim_comment (cur_of (tget tb (SLead n))) d start true ig ind) as [r d'] eqn:E.
+    pose proof (claim_step_inv d tb (SLead n) start true ig ind r d' H I E) as X. destruct r; exact X.
+  - destruct (claim_comment (cur_of (tget tb (STrail n))) d start false ig ind) as [r d'] eqn:E.
+    pose proof (claim_step_inv d tb (STrail n) start false ig ind r d' H I E) as X. destruct r; exact X.
+  - destruct (unclaim_comment (cur_of (tget tb (SLead n))) d) as [[r now] d'] eqn:E.
+    eapply unclaim_step_inv; eauto; exact I.
+  - destruct (unclaim_comment (cur_of (tget tb (STrail n))) d) as [[r now] d'] eqn:E.
+    eapply unclaim_step_inv; eauto; exact I.
+Qed.
+
+Theorem shistory_inv : forall ops st, Inv st -> Inv (fold_left sstep ops st).
+Proof. induction ops as [|o ops IH]; simpl; intros st H; auto. apply IH, sstep_inv, H. Qed.
+
+(* C04 lifted to histories of surrounding-comment calls *)
+Theorem sstep_same_vis : forall st o, NoDup (ids (fst st)) -> same_vis (fst (sstep st o)) (fst st).
+Proof.
+  intros [d tb] o ND. simpl in ND. destruct o as [n start ig ind|n start ig ind|n|n]; simpl.
+  - destruct (claim_comment (cur_of (tget tb (SLead n))) d start true ig ind) as [r d'] eqn:E.
+    apply claim_comment_same_vis in E; auto. destruct r; exact E.
+  - destruct (claim_comment (cur_of (tget tb (STrail n))) d start false ig ind) as [r d'] eqn:E.
+    apply claim_comment_same_vis in E; auto. destruct r; exact E.
+  - destruct (unclaim_comment (cur_of (tget tb (SLead n))) d) as [[r now] d'] eqn:E.
+    apply unclaim_comment_same_vis in E. exact E.
+  - destruct (unclaim_comment (cur_of (tget tb (STrail n))) d) as [[r now] d'] eqn:E.
+    apply unclaim_comment_same_vis in E. exact E.
+Qed.
+
+Theorem shistory_same_vis : forall ops st, NoDup (ids (fst st)) -> same_vis (fst (fold_left sstep ops st)) (fst st).
+Proof.
+  induction ops as [|o ops IH]; simpl; intros st ND; [apply same_vis_refl|].
+  pose proof (sstep_same_vis st o ND) as V.
+  eapply same_vis_trans; [apply IH; eapply same_vis_nodup; eauto | exact V].
+Qed.
+
+(* same tokens, same visible tokens in the same order  ==>  same printed text *)
+Lemma same_vis_txt : forall d' d, same_vis d' d ->
+  (forall t, In t d -> is_ph t = true -> t_text t = []) -> txt d' = txt d.
+Proof.
+  intros d' d [P F] E.
+  assert (E' : forall t, In t d' -> is_ph t = true -> t_text t = []).
+  { intros t' I' K'. assert (X : In (tkey t') (map tkey d)) by (eapply Permutation_in; [exact P | apply in_map; auto]).
+    apply in_map_iff in X. destruct X as [t [K I]]. unfold tkey in K. injection K as K1 K2 K3.
+    rewrite <- K3. apply E; auto. unfold is_ph in *. rewrite K2. exact K'. }
+  rewrite (txt_of_vis d' E'), (txt_of_vis d E), F. reflexivity.
+Qed.
+
+(* a concrete store: `; c` directly below a directive whose last token is followed by a placeholder *)
+Definition ex_doc : doc :=
+  [mktok 1 KPlaceholder [] false; mktok 2 KOther [111] false; mktok 3 KEol [] false; mktok 4 KPlaceholder [] false;
+   mktok 5 KNewline [10] false; mktok 6 KBlockComment [59; 32; 99] false; mktok 7 KNewline [10] false;
+   mktok 8 KOther [120] false].
+
+Lemma ex_doc_nodup : NoDup (ids ex_doc).
+Proof. unfold ids, ex_doc; simpl. repeat constructor; simpl; intuition lia. Qed.
+
+Lemma ex_inv : Inv (ex_doc, []).
+Proof.
+  split; [exact ex_doc_nodup|]. split.
+  - intros t I C. simpl. split; [lia|]. simpl in I.
+    repeat (destruct I as [I|I]; [subst t; simpl in *; try discriminate; split; intros; discriminate|]). contradiction.
+  - intros n; simpl; lia.
 Qed.
